@@ -61,27 +61,27 @@ CodeEff(D, e, nn) ==
        THEN P!EffSerial(CodeFold(xs, e.ps, 1, nn), sr, 1, nn)
        ELSE P!Eff(xs, e.ps, sr, nn)
 
-\* D_C04_ext_unbounded: a marker on a constraint whose bound is MIN..MAX (sizes: 0..MAX) is
-\*   dropped together with the (empty) annotation
+\* D_C04_ext_unbounded: a marker on a constraint whose bound is MIN..MAX as written (no lower and no upper bound in the
+\*   code's fold; SIZE (0..MAX, ...) has a lower bound and keeps its marker) is dropped together with the (empty) annotation
 \* D_C04_ext_except: the lexer attaches the outer ", ..." to the last operand; when that
 \*   operand lies to the right of an EXCEPT it is discarded and the marker with it
 AnyMarker(e) == e.ext \/ \E i \in 1..Len(e.ser) : e.ser[i].ext
 \* (the expression is nested to the right, so any EXCEPT drops the last operand and its marker)
 LastIsExcept(e) == \E j \in 1..Len(e.ps) : e.ps[j] = "x"
 \* the markers that survive in the code, constraint by constraint
-FirstFull(D, e, nn) == CodeEff(D, [e EXCEPT !.ser = <<>>], nn) = Full(nn)
+FirstFull(D, e, nn) == CodeEff(D, [e EXCEPT !.ser = <<>>], FALSE) = Full(FALSE)
 CodeExt1(D, e, nn) == /\ e.ext
                       /\ ~("D_C04_ext_except" \in D /\ LastIsExcept(e))
                       /\ ~("D_C04_ext_unbounded" \in D /\ FirstFull(D, e, nn))
 CodeSer(D, e, nn) == [j \in 1..Len(e.ser) |->
-                        [e.ser[j] EXCEPT !.ext = @ /\ ~("D_C04_ext_unbounded" \in D /\ P!OpInt(e.ser[j].o, nn) = Full(nn))]]
+                        [e.ser[j] EXCEPT !.ext = @ /\ ~("D_C04_ext_unbounded" \in D /\ P!OpInt(e.ser[j].o, FALSE) = Full(FALSE))]]
 CodeFlagOK(D, e, nn, flag) == P!ExtAllowed(flag, CodeExt1(D, e, nn), CodeSer(D, e, nn))
 
 Applicable(D, e, nn) ==
     /\ "D_C04_fold" \in D => FoldClass(IF "D_C04_open_end" \in D THEN ClosedSeq(e.os) ELSE e.os, e.ps, nn)
     /\ "D_C04_open_end" \in D => OpenEndClass(e.os, e.ser)
     /\ "D_C04_ext_unbounded" \in D => \/ (e.ext /\ FirstFull(D, e, nn))
-                                       \/ \E j \in 1..Len(e.ser) : e.ser[j].ext /\ P!OpInt(e.ser[j].o, nn) = Full(nn)
+                                       \/ \E j \in 1..Len(e.ser) : e.ser[j].ext /\ P!OpInt(e.ser[j].o, FALSE) = Full(FALSE)
     /\ "D_C04_ext_except" \in D => (e.ext /\ LastIsExcept(e))
 AllDevs == {"D_C04_fold", "D_C04_open_end", "D_C04_ext_unbounded", "D_C04_ext_except"}
 
